@@ -56,7 +56,11 @@ func (e *specEnv) clauseGoal(cl *Clause) (goal *Term, hyp *Term, skolems []*Term
 // assumeClause adds the clause as a hypothesis in state st (quantified clauses become QFacts).
 func (e *specEnv) assumeClause(cl *Clause, st *State) {
 	if len(cl.Bound) == 0 {
+		n := len(e.x.facts)
 		e.x.assume(st, e.boolExpr(cl.Expr))
+		for i := n; i < len(e.x.facts); i++ {
+			e.x.facts[i].origin = cl.Kind + "#" + cl.Label
+		}
 		return
 	}
 	var bvs []*Term
